@@ -14,6 +14,8 @@ import (
 	"go/parser"
 	"go/printer"
 	"go/token"
+	"os"
+	"path/filepath"
 	"strings"
 )
 
@@ -143,4 +145,42 @@ func onceTableAgree(fork *srcPkg, n string, rf *ast.FuncDecl) (applies, ok bool,
 		return true, false, "the statements fill something other than the table returned"
 	}
 	return true, true, ""
+}
+
+// c14TablesAgree: the fixed-base tables of the Ed25519 fork (basepointTable,
+// basepointNafTable) are built as the standard library builds them - once,
+// completely, before anyone reads them. Shared by C15 (blinded keys and
+// signatures are fixed-base multiples).
+func c14TablesAgree(p *Prog, r *Report, rule string) {
+	gr := goroot()
+	pr := refPairs[1]
+	fork, err := parseDir(filepath.Join(p.Repo, pr.fork), skipArch)
+	var ref *srcPkg
+	for _, c := range pr.refs {
+		if st, e := os.Stat(filepath.Join(gr, "src", c)); e == nil && st.IsDir() {
+			ref, _ = parseDir(filepath.Join(gr, "src", c), skipArch)
+			break
+		}
+	}
+	if err != nil || ref == nil {
+		r.Fail(rule, "reference for "+pr.fork, "-", "cannot read fork or reference")
+		return
+	}
+	for _, n := range []string{"basepointTable", "basepointNafTable"} {
+		rf := ref.funcs[n]
+		if rf == nil {
+			r.Fail(rule, n+" has a reference", "-", "reference function not found under GOROOT")
+			continue
+		}
+		ok, diff := false, "function not found in the fork"
+		if ff := fork.funcs[n]; ff != nil {
+			ok, diff = funcsAgree(ff, rf)
+		}
+		if !ok {
+			if applies, ok2, d2 := onceTableAgree(fork, n, rf); applies {
+				ok, diff = ok2, d2
+			}
+		}
+		r.Check(ok, rule, "edwards25519."+n+" is built as in the standard library (once, completely, before use)", pr.fork, "agrees with the reference", "the fixed-base table is no longer the standard library's: "+diff)
+	}
 }
